@@ -13,6 +13,29 @@ def hexs(s):
     return s.encode().hex()
 
 
+def run_resuming(ctx, argv, kind):
+    """Run a harness mode; when the process dies (a panic in a goroutine of the interpreter cannot be
+    recovered in-process) record the case it was on as a failing input and resume after it."""
+    rows, start, errs = [], 0, ""
+    for attempt in range(8):
+        rc, part, err = ctx.jsonl(argv + [str(start)], timeout=3000)
+        begun = None
+        for r in part:
+            if "begin" in r:
+                begun = r
+            else:
+                rows.append(r)
+                begun = None
+        if rc == 0:
+            return 0, rows, errs
+        errs += err[-600:]
+        if begun is None:
+            return rc, rows, errs
+        ctx.fail("run_crashes_the_process", {"src_hex": begun["src"], "kind": kind}, None, err[-700:])
+        start = begun["begin"] + 1
+    return 1, rows, errs
+
+
 def run(ctx):
     ctx.coq_props()
     quick = ctx.tier == "quick"
@@ -21,8 +44,8 @@ def run(ctx):
         return
     ngen = 900 if quick else 30000
     nal = 600 if quick else 6000
-    rc, rows, err = ctx.jsonl([binp, "gen", "-seed", str(ctx.seed), "-n", str(ngen)], timeout=3000)
-    rc2, crow, err2 = ctx.jsonl([binp, "corpus", "-in", REPO], timeout=900)
+    rc, rows, err = run_resuming(ctx, [binp, "gen", "-seed", str(ctx.seed), "-n", str(ngen)], "gen")
+    rc2, crow, err2 = run_resuming(ctx, [binp, "corpus", "-in", REPO], "corpus")
     rc3, arow, err3 = ctx.jsonl([binp, "alias", "-seed", str(ctx.seed), "-n", str(nal)], timeout=900)
     if rc or rc2 or rc3 or not rows or not crow or not arow:
         ctx.broken.append(("harness-run", "c29 harness failed rc=%d/%d/%d %s" % (rc, rc2, rc3, (err + err2 + err3)[-800:])))
